@@ -415,6 +415,13 @@ func (okStatusErr) GRPCStatus() *status.Status {
 	return status.New(codes.OK, "wrapped upstream status")
 }
 
+// okEmptyStatusErr: the same with an empty status message (an HttpTrailer built from it alone has no
+// bytes at all).
+type okEmptyStatusErr struct{}
+
+func (okEmptyStatusErr) Error() string              { return "wrapped nil upstream status" }
+func (okEmptyStatusErr) GRPCStatus() *status.Status { return status.New(codes.OK, "") }
+
 // expected status as the standard transport reports it (validated against grpc-go).
 func (e ErrSpec) Expected() (code codes.Code, msg string, details []AnySpec) {
 	switch e.Kind {
